@@ -61,6 +61,48 @@ let res_string (r : coq_N list Base.res) : string =
   | Base.Panic -> "p"
   | Base.OutOfFuel -> "FUEL"
 
+
+(* ---- C08FragModel: the File built by DecodeFile ---- *)
+let key_string (m : mdat) : string =
+  let ((((sp, large), size), pao), psz) = C08FragModel.mkey m in
+  Printf.sprintf "%s.%s.%s.%s.%s.%s" (hex_of_n sp) (b2s large) (hex_of_n size) (hex_of_n pao) (hex_of_n psz)
+    (b2s (C08FragModel.mdat_is_lazy m))
+
+let opt_string f = function None -> "-" | Some x -> f x
+
+let child_string (b : mdat C08FragModel.tbox) : string =
+  match b with C08FragModel.XBox (n, _, _) -> name_string n | C08FragModel.XMdat (_, _) -> "6d646174"
+
+let state_string (r : mdat C08FragModel.fstate Base.res) : string =
+  let open C08FragModel in
+  match r with
+  | Base.Err -> "e" | Base.Panic -> "p" | Base.OutOfFuel -> "FUEL"
+  | Base.Ok s0 ->
+    let s = fin_state s0 in
+    let frag_s (f : mdat frag) =
+      Printf.sprintf "%s,%s,%s,%s,%s" (hex_of_n f.fr_start) (opt_string hex_of_n f.fr_moof)
+        (opt_string key_string f.fr_mdat) (hex_of_n f.fr_emsgs) (S.concat "+" (L.map child_string f.fr_children)) in
+    let seg_s (g : mdat seg) =
+      Printf.sprintf "%s,%s,%s[%s]" (b2s g.sg_styp) (hex_of_n g.sg_start) (hex_of_n g.sg_sidxs)
+        (S.concat "/" (L.map frag_s g.sg_frags)) in
+    Printf.sprintf "o:F%s|I%s|M%s|X%d|R%s|C%d|S%s" (b2s s.fs_frag)
+      (opt_string (fun l -> S.concat "+" (L.map name_string l)) s.fs_init)
+      (opt_string key_string s.fs_mdat) (L.length s.fs_sidxs) (b2s s.fs_mfra) (L.length s.fs_children)
+      (S.concat ";" (L.map seg_s s.fs_segs))
+
+let parse_aux (s : string) : coq_N -> C08FragModel.aux =
+  let tbl = if s = "-" then [] else
+      L.map (fun e -> match split_on ':' e with
+          | [pos; "M"; n] -> (n_of_hex pos, C08FragModel.AMoov (if n = "-" then None else Some (n_of_int (int_of_string n))))
+          | [pos; "S"; anchor; refs] ->
+            let rl = if refs = "" || refs = "-" then [] else
+                L.map (fun r -> match split_on '.' r with
+                    | [t; z] -> (t = "1", n_of_hex z)
+                    | _ -> failwith "bad ref") (split_on ',' refs) in
+            (n_of_hex pos, C08FragModel.ASidx (n_of_hex anchor, rl))
+          | _ -> failwith "bad aux") (split_on ';' s) in
+  fun p -> match L.assoc_opt p tbl with Some a -> a | None -> C08FragModel.ANone
+
 let () =
   iter_lines (fun line ->
       match split_on '\t' line with
@@ -121,6 +163,50 @@ let () =
         let a = sel false and b = sel true in
         if a = ms && b = ls then Printf.printf "OK %s\n" id
         else Printf.printf "MISMATCH %s file-mdat model_mem=%s model_lazy=%s\n" id a b
+      | ["G"; id; filehex; z; orc; onmoof; auxs; tops; ms; ls] ->
+        (* the File DecodeFile builds (segments, fragments, moof/mdat pairing) in both modes *)
+        let f = bytes_of_hex filehex in
+        let zf = (z = "1") in
+        let fuel = nat_of_int (L.length f / 8 + 4) in
+        let ax = parse_aux auxs in
+        let run lz = state_string (C08FragModel.decode_file_frag fuel lz f zf (onmoof = "1") ax
+                                     { rpos = n_of_int 0; rorc = orc_of orc }) in
+        let a = run false and b = run true in
+        let hyp = tops <> "-" && C08Spec.layout_at f (n_of_int 0) (parse_tops tops) in
+        if a <> ms || b <> ls then Printf.printf "MISMATCH %s file-state model_mem=%s model_lazy=%s\n" id a b
+        else if tops <> "-" && not hyp then Printf.printf "MISMATCH %s file-state layout_at-false-on-generated-file\n" id
+        else Printf.printf "OK %s%s\n" id (if hyp then " H" else "")
+      | ["E"; id; filehex; z; orc; tops; me; le; sp] ->
+        (* File.Encode of both decodings (children in order) and the header-then-CopyData writer on the lazy one *)
+        let f = bytes_of_hex filehex in
+        let zf = (z = "1") in
+        let fuel = nat_of_int (L.length f / 8 + 4) in
+        let r () = { rpos = n_of_int 0; rorc = orc_of orc } in
+        let enc lz = match decode_file_top fuel lz f zf (n_of_int 0) (r ()) with
+          | Base.Ok t -> res_string (C08EncModel.encode_tops f t)
+          | Base.Err -> "e" | Base.Panic -> "p" | Base.OutOfFuel -> "FUEL" in
+        let spl = match decode_file_top fuel true f zf (n_of_int 0) (r ()) with
+          | Base.Ok t -> res_string (C08EncModel.encode_tops_splice f zf (fun _ -> orc_of orc) t)
+          | Base.Err -> "e" | Base.Panic -> "p" | Base.OutOfFuel -> "FUEL" in
+        let a = enc false and b = enc true in
+        let hyp = tops <> "-" && C08Spec.layout_at f (n_of_int 0) (parse_tops tops) in
+        let el = if hyp then "o:" ^ hex_of_bytes (C08EncModel.elide f (n_of_int 0) (parse_tops tops)) else "" in
+        if a <> me || b <> le || spl <> sp then Printf.printf "MISMATCH %s file-encode model_mem=%s model_lazy=%s model_splice=%s\n" id a b spl
+        else if hyp && (me <> "o:" ^ filehex || le <> el || sp <> "o:" ^ filehex) then
+          Printf.printf "MISMATCH %s file-encode C08_file_encode-conclusion-false-on-implementation\n" id
+        else Printf.printf "OK %s%s\n" id (if hyp then " H" else "")
+      | ["P"; id; sizes; uni; offs; a; b; chunks; segs] ->
+        (* positions only (sparse file beyond 4 GiB): the (offset,size) the chunk loop computes per chunk *)
+        let t = { sample_sizes = L.map n_of_int (ints_of_csv sizes); uniform_size = n_of_int (int_of_string uni);
+                  chunk_offsets = if offs = "" then [] else L.map n_of_hex (split_on ',' offs) } in
+        let a = n_of_int (int_of_string a) and b = n_of_int (int_of_string b) in
+        let cs = parse_chunks chunks in
+        let n = L.length cs in
+        let out = L.mapi (fun i c -> match chunk_seg t c (i = 0) (i = n - 1) a b with
+            | Base.Ok (o, z) -> Printf.sprintf "%s:%s" (hex_of_n o) (hex_of_n z)
+            | Base.Err -> "e" | Base.Panic -> "p" | Base.OutOfFuel -> "FUEL") cs in
+        let m = S.concat ";" out in
+        if m = segs then Printf.printf "OK %s\n" id else Printf.printf "MISMATCH %s segs model=%s\n" id m
       | ["T"; id; sizes; uni; offs] ->
         tb := { sample_sizes = L.map n_of_int (ints_of_csv sizes); uniform_size = n_of_int (int_of_string uni);
                 chunk_offsets = L.map n_of_int (ints_of_csv offs) };
